@@ -3,11 +3,13 @@
 
     c04.bip143       script tx idx ht amount|none   Model.signatureHashWitnessV0 → digest-hex | err:<family>
     c04.spec.bip143  script tx idx ht amount        Spec.bip143Sighash (ht ≥ 0)  → digest-hex | undefined
+    c04.hist         script q1 q2 …                 see Driver/C03.lean `c03.hist`
 -/
 import Driver.Util
 import Driver.TxFmt
 import BtcVerif.Model.Sighash
 import BtcVerif.Spec.Sighash
+import Driver.C03
 
 namespace Driver.C04
 open BtcVerif Driver
@@ -22,6 +24,7 @@ def handle (op : String) (args : List String) : Option String :=
       | some sc, some tx, some idx, some ht, some am =>
           Res.render ((Model.Sighash.signatureHashWitnessV0 sc tx idx ht am).map toHex)
       | _, _, _, _, _ => badArgs
+  | "c04.hist", args => some (C03.histReply args)      -- same thin history op as c03.hist
   | "c04.spec.bip143", [sc, tx, idx, ht, am] => some <|
       match parseHex? sc, TxFmt.parseTx? tx, parseNat? idx, parseNat? ht, parseInt? am with
       | some sc, some tx, some idx, some ht, some am =>
